@@ -314,7 +314,7 @@ class Exec(MiniExec):
             env = dict(zip(callee.params, args()))
             for kw in call.keywords:
                 env[kw.arg] = self.ev(kw.value)
-            sub = Exec(self.prog, callee, env, self.clock)
+            sub = type(self)(self.prog, callee, env, self.clock)
             return sub.run()
         return super()._call(me, call)
 
